@@ -48,6 +48,23 @@ theorem C02_foreign_filter_ignored (opt : WOpts) (hok : WOptsOK opt) (rp : Filte
 example : Spec.lookup defaultCmp [([1], [10]), ([3], [30])] [3] = some [30] := by decide
 example : Spec.lookup defaultCmp [([1], [10]), ([3], [30])] [2] = none := by decide
 example : Spec.lookup defaultCmp [([], [7]), ([0], [])] [] = some [7] := by decide
+-- writer configurations covered: e.g. the crate's default one (bloom, 10 bits per key) …
+example (blockSize ri : Nat) (hri : 1 ≤ ri) (compress : Bytes → Bytes) :
+    WOptsOK { cmp := defaultCmp, blockSize, restartInterval := ri, compression := 0,
+              filter := Bloom.policy 10, compress } :=
+  wOptsOK_bloom blockSize ri hri 10 compress
+-- … so `C02_get` applies to it as is: lookups through the bloom filter are exact
+example (blockSize ri : Nat) (hri : 1 ≤ ri) (compress : Bytes → Bytes)
+    (sched : List SinkResp) (es : List (Bytes × Bytes)) (t0 : TableBuilder) (n : Nat)
+    (hb : TableBuilder.build { cmp := defaultCmp, blockSize, restartInterval := ri, compression := 0,
+                               filter := Bloom.policy Consts.defaultBitsPerKey, compress }
+            { sched := sched } es = (t0, .ok n))
+    (hn : n < 2 ^ 32)
+    (w : World) (file : Nat) (hcw : CleanWorld w file t0.sink.received) (hempty : w.cache.entries = []) :
+    ∃ w1 tb, Table.new ⟨defaultCmp, Bloom.policy Consts.defaultBitsPerKey⟩ file n w = (w1, .ok tb)
+      ∧ ∀ k, ∃ w2, tb.get k w1 = (w2, .ok (Spec.lookup defaultCmp es k)) :=
+  C02_get _ (wOptsOK_bloom blockSize ri hri _ compress) _ (readerPolicyOK_refl _) sched es t0 n hb hn
+    (fun h => by cases h) w file hcw hempty
 -- reader policies covered: the writer's own, any foreign name, bloom with other parameters
 example (p : FilterPolicy) : ReaderPolicyOK p p := readerPolicyOK_refl p
 example (wp rp : FilterPolicy) (h : Table.filterName rp ≠ Table.filterName wp) : ReaderPolicyOK wp rp := .inl h
